@@ -32,7 +32,7 @@ func c13Has(set []string, x string) bool {
 }
 
 //verif:entry tier=quick,thorough maporder=perm cover=add,delete,update,sameversion,nochange
-//verif:doc Kubernetes handler: 2 (quick) / 3 (thorough) events Add / Delete / Update, each carrying 0..2 addresses (atoms: equal or different, solver-chosen); after every event the last published slice equals the current address set (as a set, no duplicates), and nothing is published when the set did not change; Update with an equal ResourceVersion publishes nothing.
+//verif:doc Kubernetes handler: 2 (quick) / 3 (thorough) events Add / Delete / Update, each carrying 0..2 addresses (atoms: equal or different, solver-chosen); after every event the last published slice equals the current address set (as a set, no duplicates), and nothing is published when the set did not change; Update with an equal ResourceVersion publishes nothing, Update with a different one (sorting before or after the old one: versions are opaque) is applied.
 func Verif_C13_Kube() {
 	var published []string
 	pubs := 0
@@ -76,7 +76,8 @@ func Verif_C13_Kube() {
 			cur = nw
 		case 2:
 			rt.Cover("update")
-			h.OnUpdate(c13Endpoints(0, "v1"), ep)
+			// resource versions are opaque: only (in)equality may matter, whichever way they sort
+			h.OnUpdate(c13Endpoints(0, []string{"v1", "v3", "10"}[rt.Choose("oldVersion", 3)]), ep)
 			cur = nil
 			for _, ip := range ips {
 				if !c13Has(cur, ip) {
